@@ -47,8 +47,12 @@ def _hook(event, args):
         if isinstance(flags, int) and flags & WRITE_FLAGS:
             writeish = True
         if writeish:
-            if str(path) in STATE["allow"] or str(path) == _cli_output():
+            cli_out = _cli_output()
+            if str(path) in STATE["allow"] or str(path) == cli_out:
                 return
+            if cli_out and os.path.isdir(cli_out) and os.path.dirname(os.path.abspath(str(path))) == os.path.abspath(cli_out):
+                return  # the user named a directory: a file created inside it is requested output
+
             STATE["events"].append(("open-for-writing", str(path), str(mode), site))
         elif isinstance(path, (str, bytes, os.PathLike)):
             STATE["opens"][site] = STATE["opens"].get(site, 0) + 1
